@@ -1,7 +1,7 @@
 CFG = {
     "level_text": "Proved (unbounded) about the model: with a fallback OOV provider lattice construction succeeds for every text (fallback_total); the i32 Viterbi search neither overflows nor panics under a stated cost bound (no_overflow_if_bounded); every `as u16` of a position of an accepted text is lossless; the inventory of panic-capable constructs in the analysis-path files is regenerated and must equal the reviewed classification. Tested (labelled as a test): the real tokenizer in debug (overflow checks, debug assertions) and release profiles on hostile inputs x configurations x modes, every accessor of every morpheme called, limits 49,149 / 65,535 probed.",
     "level_note": "partial: absence of panics in the real code (rustc/std/third-party crates, unsafe blocks, allocator) is tested, not proved; the proofs cover the lattice-construction logic, the arithmetic and the cast ranges. Known finding shared with C02: i32 cost overflow at cost extremes x > 32768 tokens.",
-    "facts": ["Limits", "PanicSites", "ConnFacts"],
+    "facts": ["Limits", "PanicSites", "ConnFacts", "LatticeSites"],
     "profiles": ["debug", "release"],
     "harness_timeout": 1500,
     "trusted": ["panic freedom of regex, fancy-regex, aho-corasick, unicode-normalization, yada readers is only exercised"],
